@@ -49,7 +49,9 @@ WAIT_PATTERNS = ['"ab"', '"abcabd"', '"aab"i', '"aa"', '/a+b/', '/a[^a]b/', '/<[
 def wait_programs():
     out = []
     k = 0
-    ctxs = ['wait {p}; ";";', 'x += "a"; wait {p}; h();', 'try {{ "q"; wait {p}; }} catch {{ wait {p}; }} "z";', 'loop {{ wait {p}; optional {{ "!"; break; }} }} ";";', 'wait {p}; end;']
+    ctxs = ['wait {p}; ";";', 'x += "a"; wait {p}; h();', 'try {{ "q"; wait {p}; }} catch {{ wait {p}; }} "z";', 'loop {{ wait {p}; optional {{ "!"; break; }} }} ";";', 'wait {p}; end;',
+            # a wait as the first statement of a block that is entered on its first byte (the block's start state is the wait's start state)
+            'try {{ "<"; optional {{ wait {p}; h(); }} ";"; }} catch {{ g(); }} "z";', '"<"; optional {{ wait {p}; }} ";";']
     for p in WAIT_PATTERNS:
         for c in ctxs:
             src = DECLS + "parser { " + c.format(p=p) + " }\n"
@@ -61,7 +63,8 @@ def wait_programs():
 RX_ATOMS = ['a', 'b', '.', '[^a]', '\\d', '[ab]', '[a-c]']
 RX_OPS = ['', '?', '*', '+', '{2}', '{1,2}', '{2,}']
 RX_TRICKY = ['(a*)*b', 'a{0}b', '(a|b)*abb', '[^a][^b]', '[^a]*a', '.*', '.+x', '(ab|a)(c|bc)', 'a?a?aa', '(a|ab)(c|bcd)(d*)', '\\w+@\\w+', '[\\w\\-]+', '[^\\d\\s]x',
-             '(\\.|[^"\\\\])*"', 'x[a-c\\d]{2,3}y', '(a{2}){2}', '((a))', '(a|b|c|d)', 'a|b*|c+', '[a-a]', '\\n\\t\\r', '.{3}', '(.a){2}', '[^ab]|a', 'ab*[^c]d', '\\S\\s\\S', '\\D\\W']
+             '(\\.|[^"\\\\])*"', 'x[a-c\\d]{2,3}y', '(a{2}){2}', '((a))', '(a|b|c|d)', 'a|b*|c+', '[a-a]', '\\n\\t\\r', '.{3}', '(.a){2}', '[^ab]|a', 'ab*[^c]d', '\\S\\s\\S', '\\D\\W',
+             '[+-\\/]', '[\\--0]x', '[\\/-9]+', '[Z-\\]]', '[^*-\\/x]', '[\\]-a\\w]', '[\\\\-a]', '[!-\\-]y', '[\\^-z]', 'a[\\-\\]]b']
 RX_BIN = ['61', '61 62+', '(61|62)*63', '[61-63]{2}', '[^00]', '.', '00 [10-15]+|(44 56? 12)', 'ff.{2}', '[^61 62]63', '.*00']
 
 
